@@ -8,6 +8,8 @@ R-C03-3  refusal guards: empty / mismatched inputs; every member agrees with mem
          degree (statement and len(d1)); vector generators are compared (prefix) with the largest member
 R-C03-5  (= R-C04-3/designated) data of the first member absorbed into every member's transcript is compared across members by the
          consistency function: a member is verified in a batch against the same data as alone
+R-C03-6  per-member independence: the per-proof loop carries no state from one member to the next except the gate's accumulators, the
+         result vector and the weight RNG
 R-C03-4  batch weighting (= R-C08-1..3): the batch verdict is the conjunction of the members' verdicts only if every member's equation
          enters the single gate under its own fresh non-zero weight
 """
@@ -332,11 +334,70 @@ def prefix_guards(ctx, rule, cons, flat=None):
                   '%s generators: %s' % (nm, why), ctx.where(cons, hit['guard'].bb) if hit else ctx.where(cons))
 
 
+def per_member_independence(ctx, RULE='R-C03-6'):
+    """The per-proof loop of the verifier core carries nothing from one member to the next except the accumulators of the single gate,
+    the result vector and the weight RNG.  Any other local that is created before the loop and written inside it makes the handling
+    of member i depend on the members before it: the batch verdict then depends on the order and mixture of the batch (a scratch
+    buffer that keeps entries of a larger, earlier proof), which is neither "iff every member verifies on its own" nor completeness
+    for every ordering."""
+    rep = ctx.rep
+    from . import weights
+    g = weights.gate(ctx, RULE)
+    if g is None:
+        return
+    v, gbb, args = g
+    cfg = ctx.cfgof(v)
+    ix = ctx.eng.bx(v)
+    ws, _ = weights.weight_atoms(ctx, v, [args[1], args[2]])
+    if len(ws) != 1:
+        rep.anchor_missing(RULE, RULE + '/weight', 'no unique weight atom: the per-proof loop is not identified')
+        return
+    wbb = ws[0][3][0][1]
+    hs = cfg.loop_of.get(wbb, [])
+    if not hs:
+        rep.anchor_missing(RULE, RULE + '/loop', 'the weight is not drawn inside a loop')
+        return
+    L = hs[0]
+    blocks = cfg.loops[L]
+    # root-level updates of the gate's arguments inside the loop (updates of temporaries nested in their values do not count)
+    in_gate = {e.id for e in weights.accumulation_events(ctx, v, list(args[1:]), L)}
+    results = result_local(ctx, v)
+    carried = {}
+    for e in ix.events():
+        if e['bb'] in blocks:
+            for r in e['roots']:
+                if r[0] == 'L' and r[1] > v.argc:
+                    carried.setdefault(r[1], []).append(e)
+    n = 0
+    for l, evs in sorted(carried.items()):
+        if not [d for d in ix.whole_defs(l) if d[0] not in blocks]:
+            continue                    # created inside the loop: per-member
+        ty = v.local_ty(l)
+        if any(ty.startswith(p_) or ('<' + p_) in ty[:40] for p_ in ('std::iter::', 'std::slice::Iter', 'std::slice::Chunks', 'std::vec::IntoIter', 'itertools::', 'std::ops::Range', '&mut std::iter::', '&mut std::slice::')):
+            continue                    # the iterators that drive the loop
+        n += 1
+        name = v.local_name(l) or ('_%d' % l)
+        key = '%s/carried/%s' % (RULE, name if v.local_name(l) else ty[:40])
+        reaches = any(ctx.eng.event_term(v, e).id in in_gate for e in evs)
+        is_result = l in results
+        is_rng = any(e['bb'] == wbb for e in evs)
+        # a scratch buffer emptied before anything else touches it in the iteration carries capacity, not state
+        resets = [e for e in evs if (e.get('decl') or '').split('::')[-1] == 'clear']
+        is_reset = any(all(e2 is e or cfg.dominates(e['bb'], e2['bb']) for e2 in evs) for e in resets)
+        rep.check(reaches or is_result or is_rng or is_reset, RULE, key,
+                  '`%s` persists across members as %s' % (name, 'an accumulator of the gate' if reaches else 'the result vector' if is_result else 'the weight RNG' if is_rng else 'a buffer cleared at the start of every iteration'),
+                  '`%s` (%s) is created before the per-proof loop and written inside it (%s), but is neither an accumulator of the gate, nor the result vector, nor the weight RNG: '
+                  'what is computed for one member depends on the members before it' % (name, ty[:50], sorted({(e.get('decl') or e['kind']).split('::')[-1] for e in evs})[:5]),
+                  ctx.where(v, evs[0]['bb']))
+    rep.floor(RULE, 'locals carried across members (accumulators, results, weight RNG)', n, 6)
+
+
 def run(ctx):
     _run(ctx)
     from . import C08
     from .common import shared
     shared(ctx, C08.run, 'R-C08', 'R-C03-4')
+    per_member_independence(ctx)
     # R-C03-5 (= R-C04-3/designated): what a member is verified against in a batch is what it is verified against alone
     from . import C04, wire
     vb_ = wire.entry(ctx, 'verifier', 'R-C03-5')
